@@ -325,7 +325,24 @@ func main() {
 							runtime.Gosched()
 						}
 						atomic.AddInt64(&infl, -1)
-						o.entry.Exit()
+						if j%4 == 1 {
+							// two goroutines exit the SAME entry at the same instant: it releases its capacity exactly once
+							var both sync.WaitGroup
+							var go2 int32
+							both.Add(1)
+							en := o.entry
+							go func() {
+								defer both.Done()
+								for atomic.LoadInt32(&go2) == 0 {
+								}
+								en.Exit()
+							}()
+							atomic.StoreInt32(&go2, 1)
+							en.Exit()
+							both.Wait()
+						} else {
+							o.entry.Exit()
+						}
 					}
 				}()
 			}
